@@ -73,3 +73,67 @@ theorem canonicalName_lower (s : Str) : canonicalName (s.map lowerAscii) = canon
   split <;> simp [List.map_map, Function.comp_def, lowerAscii_idem]
 
 end DaeVerif.C18
+
+namespace DaeVerif.C18
+
+/-! ## the knowledge key determines the canonical name and the query type -/
+
+theorem isFqdn_getLast {s : Str} (h : isFqdn s = true) : s.getLast? = some '.' := by
+  unfold isFqdn at h
+  split at h
+  · assumption
+  · simp at h
+
+theorem canonicalName_ends_dot (s : Str) : ∃ t, canonicalName s = t ++ ['.'] := by
+  unfold canonicalName
+  split
+  · rename_i h
+    obtain ⟨t, ht⟩ := List.getLast?_eq_some_iff.1 (isFqdn_getLast h)
+    refine ⟨t.map lowerAscii, ?_⟩
+    rw [ht, List.map_append]
+    simp [lowerAscii]
+  · refine ⟨s.map lowerAscii, ?_⟩
+    rw [List.map_append]
+    simp [lowerAscii]
+
+/-- a key `canonicalName n ++ q` with a dot-free suffix `q` splits at its last dot into the name
+(without the final dot) and `q`. -/
+theorem key_splitLast (n q : Str) (hq : hasChar '.' q = false) :
+    ∃ t, canonicalName n = t ++ ['.'] ∧ splitLast '.' (canonicalName n ++ q) = some (t, q) := by
+  obtain ⟨t, ht⟩ := canonicalName_ends_dot n
+  refine ⟨t, ht, ?_⟩
+  rw [ht]
+  have : t ++ ['.'] ++ q = t ++ '.' :: q := by simp
+  rw [this]
+  exact splitLast_append t q hq
+
+theorem key_inj (a b qa qb : Str) (ha : hasChar '.' qa = false) (hb : hasChar '.' qb = false)
+    (h : canonicalName a ++ qa = canonicalName b ++ qb) : canonicalName a = canonicalName b ∧ qa = qb := by
+  obtain ⟨ta, ea, sa⟩ := key_splitLast a qa ha
+  obtain ⟨tb, eb, sb⟩ := key_splitLast b qb hb
+  rw [h, sb] at sa
+  simp only [Option.some.injEq, Prod.mk.injEq] at sa
+  exact ⟨by rw [ea, eb, sa.1], sa.2.symm⟩
+
+theorem itoa_noDot (n : Nat) : hasChar '.' (itoa n) = false := by
+  rw [hasChar_false_iff]
+  intro c hc
+  have := itoa_digits n c hc
+  rintro rfl
+  simp [Char.isDigit] at this
+
+theorem qtypeStr_noDot (b : Bool) : hasChar '.' (qtypeStr b) = false := by cases b <;> decide
+
+/-- `cacheKey` is injective up to the canonical form of the name. -/
+theorem cacheKey_inj (a b : Str) (x y : Bool) (h : cacheKey a x = cacheKey b y) :
+    canonicalName a = canonicalName b ∧ x = y := by
+  obtain ⟨h1, h2⟩ := key_inj a b _ _ (qtypeStr_noDot x) (qtypeStr_noDot y) h
+  refine ⟨h1, ?_⟩
+  cases x <;> cases y <;> simp [qtypeStr] at h2 <;> rfl
+
+/-- a general-type key equal to an A/AAAA key: same canonical name, and the type is A resp. AAAA. -/
+theorem cacheKeyQ_eq_cacheKey (a b : Str) (q : Nat) (x : Bool) (h : cacheKeyQ a q = cacheKey b x) :
+    canonicalName a = canonicalName b ∧ itoa q = qtypeStr x :=
+  key_inj a b _ _ (itoa_noDot q) (qtypeStr_noDot x) h
+
+end DaeVerif.C18
